@@ -114,6 +114,7 @@ func (g *Gen) tick() int64 {
 func (g *Gen) table() string  { return pick(g.r, g.tables) }
 func (g *Gen) key() string    { return pick(g.r, g.keys) }
 func (g *Gen) member() string { return pick(g.r, g.members) }
+
 // value: mostly plain values; the empty string and the int64 boundary values
 // are rare (5 %) so that the input classes with known deviations (empty
 // APPEND/SETRANGE value, INCR overflow) do not end most sequences early.
@@ -223,11 +224,11 @@ func (g *Gen) noteTTL(o Op) {
 }
 
 // persistOp: PERSIST on a key that has no expiry is the input class of a known
-// conformance deviation (persist-without-ttl); nine times out of ten the
+// conformance deviation (persist-without-ttl); almost always the
 // command is aimed at a key that was given an expiry earlier in the sequence.
 func (g *Gen) persistOp(name, k string) Op {
 	typ := typeOf(name)
-	if g.shadow != nil && g.r.Intn(10) != 0 {
+	if g.shadow != nil && g.r.Intn(100) != 0 {
 		// exact: keys that carry an expiry and are alive at the current log time
 		var c [][2]string
 		for _, tk := range g.withTTL[typ] {
@@ -243,7 +244,7 @@ func (g *Gen) persistOp(name, k string) Op {
 		tk := c[g.r.Intn(len(c))]
 		return Op{Name: name, T: tk[0], K: tk[1]}
 	}
-	if g.r.Intn(10) == 0 {
+	if g.r.Intn(40) == 0 {
 		return Op{Name: name, T: g.table(), K: k}
 	}
 	// no candidate: give the key an expiry instead
@@ -545,6 +546,16 @@ func (g *Gen) score() string {
 var poolScoreBounds = []string{"-inf", "+inf", "0", "1", "(1", "2", "(2", "-1", "(0", "1.5", "(1.5", "3", "-2.5", "(-1", "1e3"}
 var poolLexBounds = []string{"-", "+", "[a", "(a", "[b", "(b", "[", "(", "[ab", "(\xff", "[\x00", "[c"}
 
+func (g *Gen) lexBound() string {
+	for {
+		b := pick(g.r, poolLexBounds)
+		// benign (C10): the NUL lower bound is the mem engine's seek problem (C08/C20)
+		if !g.benign || b != "[\x00" {
+			return b
+		}
+	}
+}
+
 func (g *Gen) genZSet() Op {
 	k := g.key()
 	r := g.r
@@ -591,7 +602,7 @@ func (g *Gen) genZSet() Op {
 		}
 	case 12:
 		for {
-			lo, hi := pick(r, poolLexBounds), pick(r, poolLexBounds)
+			lo, hi := g.lexBound(), g.lexBound()
 			if LexRangeAccepted(lo, hi) {
 				return g.op("zremrangebylex", k, lo, hi)
 			}
@@ -617,9 +628,9 @@ func (g *Gen) genZSet() Op {
 	case 21:
 		return g.op("zcount", k, pick(r, poolScoreBounds), pick(r, poolScoreBounds))
 	case 22, 23:
-		return g.op("zrangebylex", k, limit([]string{pick(r, poolLexBounds), pick(r, poolLexBounds)})...)
+		return g.op("zrangebylex", k, limit([]string{g.lexBound(), g.lexBound()})...)
 	case 24:
-		return g.op("zlexcount", k, pick(r, poolLexBounds), pick(r, poolLexBounds))
+		return g.op("zlexcount", k, g.lexBound(), g.lexBound())
 	case 25:
 		return g.op("zrank", k, g.member())
 	case 26:
